@@ -203,7 +203,10 @@ class TbsClone(_NativeJudge, Contract):
 
     def setup(self, I, ctx, case):
         w = World14(I, ctx)
-        return {"self": w.base, "__w": w, "__snap": snap(reach(w.roots))}
+        # the original has been read at a date before: its memo of at-instant views holds a view of ITS tree
+        view = Obj(I.builtins["object"], {"_name": "", "_instant_str": "2017-01-01", "_children": DictVal()}, label="base.view@2017-01-01")
+        w.base.fields["_parameters_at_instant_cache"] = dict_of([("2017-01-01", view)])
+        return {"self": w.base, "__w": w, "__snap": snap(reach(w.roots)), "__view": view}
 
     def post(self, I, ctx, a, out, old):
         w = a["__w"]
@@ -212,6 +215,9 @@ class TbsClone(_NativeJudge, Contract):
         new = out[1]
         f = new.fields
         res = [("new-system", new is not w.base), ("original-untouched", not changed(a["__snap"]))]
+        memo = f.get("_parameters_at_instant_cache")
+        res.append(("the-copy-starts-without-resolved-views (a view of the original's tree is not a view of the copy's)",
+                    isinstance(memo, DictVal) and memo is not w.base.fields["_parameters_at_instant_cache"] and not memo.items))
         res += entity_binding_checks(w, new)
         nv = f.get("variables")
         res.append(("own-variables-table", isinstance(nv, DictVal) and nv is not w.variables and set(nv.items) == set(w.variables.items)))
